@@ -1,93 +1,853 @@
-//! Block `mass` (C20) — probe version
+//! Block `mass` (C20): mass / adhesion / traction-limit bookkeeping.
+//! Drives the real `Mass` impls of FuelConverter, Generator, ReversibleEnergyStorage, Locomotive
+//! (all four powertrain kinds), Consist, and the train static-mass computation; every call is one
+//! op line carrying the implementation's pre-state, the answer carries Ok/Err AND the post-state
+//! (several setters write before a later `?` fails).  Private fields are read through
+//! `serde_yaml::to_value` (exact f64, keeps inf/NaN) and objects with arbitrary private fields are
+//! built with `serde_yaml::from_value` (plain `Deserialize`, no `init`).
 use crate::prng::Rng;
 use crate::proto::*;
 use altrios_core::consist::locomotive::locomotive_model::{ForceMaxSideEffect, MuSideEffect, PowertrainType};
+use altrios_core::consist::{PowerDistributionControlType, Proportional};
 use altrios_core::prelude::*;
 use altrios_core::traits::{Mass, MassSideEffect, SerdeAPI};
-use altrios_core::validate::Valid;
-use altrios_core::{si, uc};
+use altrios_core::uc;
 use serde_json::json;
+use serde_yaml::Value as Y;
+use std::collections::HashMap;
 
-pub fn run(_ctx: &mut Ctx, _r: &mut Rng, _tier: &str) {
-    let fc = FuelConverter::default();
-    let v = serde_json::to_value(&fc).unwrap();
-    eprintln!("fc json len {}", v.to_string().len());
-    eprintln!("fc keys {:?}", v.as_object().unwrap().keys().collect::<Vec<_>>());
-    let res = ReversibleEnergyStorage::default();
-    let v = serde_json::to_value(&res).unwrap();
-    eprintln!("res json len {}", v.to_string().len());
-    eprintln!("res keys {:?}", v.as_object().unwrap().keys().collect::<Vec<_>>());
-    let l = Locomotive::default();
-    let v = serde_json::to_value(&l).unwrap();
-    eprintln!("loco json len {}", v.to_string().len());
-    eprintln!("loco keys {:?}", v.as_object().unwrap().keys().collect::<Vec<_>>());
-    eprintln!("loco_type keys {:?}", v["loco_type"].as_object().unwrap().keys().collect::<Vec<_>>());
-    eprintln!("mass {:?} mu {:?} force {:?}", v["mass"], v["mu"], v["force_max"]);
-    let mut v2 = v.clone();
-    v2["mu"] = json!(0.3);
-    v2["loco_type"] = json!({"DummyLoco": {}});
-    let d: Result<Locomotive, _> = serde_json::from_value(v2);
-    eprintln!("dummy from_value ok={}", d.is_ok());
-    if let Ok(mut d) = d {
-        eprintln!("dummy mass() = {:?}", d.mass().map_err(|e| e.to_string().len()));
-        let r = d.set_mass(None, MassSideEffect::None);
-        eprintln!("dummy set_mass(None) ok={}", r.is_ok());
-    }
-    // train
-    let tc = TrainConfig::valid();
-    let tp = tc.make_train_params();
-    eprintln!("make_train_params ok={} towed={:?}", tp.is_ok(), tp.as_ref().map(|t| t.towed_mass_static.value).ok());
-    let con = Consist::default();
-    eprintln!("consist mass {:?} force {:?}", con.mass().map(|m| m.map(|x| x.value)).ok(), con.force_max().map(|x| x.value).ok());
-    let tsb = TrainSimBuilder::new("t".into(), tc, con, None, None, None);
-    let st = SpeedTrace::default();
-    let r = guard(|| tsb.make_set_speed_train_sim_and_parts(Vec::<Link>::new(), Vec::<LinkIdx>::new(), st, None));
-    match r {
-        None => eprintln!("parts: panic"),
-        Some(Err(e)) => eprintln!("parts: err {:#}", e),
-        Some(Ok((sim, tp, _, _, _))) => eprintln!("parts ok: mass_static {} towed {}", sim.state.mass_static.value, tp.towed_mass_static.value),
-    }
+const P: &str = "C20";
+const EPS: f64 = 1e-8;
 
-    eprintln!("g bits {:016x} eps bits {:016x}", uc::ACC_GRAV.value.to_bits(), 1e-8f64.to_bits());
-    // load with inconsistent mu/mass/force
-    {
-        let mut v = serde_json::to_value(&Locomotive::default()).unwrap();
-        v["mu"] = json!(0.3); v["mass"] = json!(100000.0); v["force_max"] = json!(1.0);
-        let y = serde_yaml::to_string(&v).unwrap();
-        let r = Locomotive::from_yaml(&y);
-        eprintln!("load inconsistent force: ok={}", r.is_ok());
-        if let Ok(l) = r { eprintln!("  force_max() ok={}", l.force_max().is_ok()); }
-        let mut v = serde_json::to_value(&FuelConverter::default()).unwrap();
-        v["mass"] = json!(1000.0); v["specific_pwr"] = json!(2.0);
-        let y = serde_yaml::to_string(&v).unwrap();
-        let r = FuelConverter::from_yaml(&y);
-        eprintln!("load inconsistent fc: ok={}", r.is_ok());
-        if let Ok(l) = r { eprintln!("  mass() ok={}", l.mass().is_ok()); }
-        let mut v = serde_json::to_value(&Generator::default()).unwrap();
-        v["mass"] = json!(1000.0); v["specific_pwr"] = json!(2.0);
-        let y = serde_yaml::to_string(&v).unwrap();
-        eprintln!("load inconsistent gen: ok={}", Generator::from_yaml(&y).is_ok());
-        let yv = serde_yaml::to_value(&Locomotive::default()).unwrap();
-        eprintln!("yaml value mass {:?} mu {:?}", yv["mass"], yv["mu"]);
+// ---------------------------------------------------------------- views
+
+#[derive(Clone, Copy, Debug, PartialEq)]
+pub enum Slot { Fc, Gen, Res }
+impl Slot {
+    fn name(self) -> &'static str { match self { Slot::Fc => "fc", Slot::Gen => "gen", Slot::Res => "res" } }
+    fn spec_key(self) -> &'static str { match self { Slot::Res => "specific_energy", _ => "specific_pwr" } }
+    fn rating_key(self) -> &'static str { match self { Slot::Res => "energy_capacity_joules", _ => "pwr_out_max_watts" } }
+}
+
+#[derive(Clone, Debug, PartialEq)]
+pub struct CompV { mass: Option<f64>, spec: Option<f64>, rating: f64 }
+
+#[derive(Clone, Copy, Debug, PartialEq)]
+pub enum Kind { Conv, Hybrid, Bel, Dummy }
+impl Kind {
+    fn name(self) -> &'static str { match self { Kind::Conv => "conv", Kind::Hybrid => "hybrid", Kind::Bel => "bel", Kind::Dummy => "dummy" } }
+    fn variant(self) -> &'static str {
+        match self { Kind::Conv => "ConventionalLoco", Kind::Hybrid => "HybridLoco", Kind::Bel => "BatteryElectricLoco", Kind::Dummy => "DummyLoco" }
     }
-    {
-        let mut rv = RailVehicle::default();
-        rv.car_type = "Bulk".into();
-        rv.mass_static_base = uc::KG * 30000.0; rv.mass_freight = uc::KG * 70000.0;
-        rv.length = uc::M * 15.0; rv.axle_count = 4; rv.brake_count = 1; rv.speed_max = uc::MPS * 30.0;
-        rv.braking_ratio = uc::R * 0.1;
-        let mut tc = TrainConfig::valid();
-        tc.rail_vehicles = vec![rv];
-        let tp = tc.make_train_params();
-        eprintln!("make_train_params ok={} towed={:?}", tp.is_ok(), tp.as_ref().map(|t| t.towed_mass_static.value).ok());
-        let tsb = TrainSimBuilder::new("t".into(), tc, Consist::default(), None, None, None);
-        let r = guard(|| tsb.make_set_speed_train_sim_and_parts(Vec::<Link>::new(), Vec::<LinkIdx>::new(), SpeedTrace::default(), None));
-        match r {
-            None => eprintln!("parts: panic"),
-            Some(Err(e)) => eprintln!("parts: err {:#}", e),
-            Some(Ok((sim, tp, _, _, _))) => eprintln!("parts ok: mass_static {} towed {}", sim.state.mass_static.value, tp.towed_mass_static.value),
+    fn slots(self) -> &'static [Slot] {
+        match self { Kind::Conv => &[Slot::Fc, Slot::Gen], Kind::Hybrid => &[Slot::Fc, Slot::Gen, Slot::Res], Kind::Bel => &[Slot::Res], Kind::Dummy => &[] }
+    }
+}
+
+#[derive(Clone, Debug, PartialEq)]
+pub struct LocoV {
+    kind: Kind,
+    comps: Vec<CompV>,
+    mass: Option<f64>,
+    mu: Option<f64>,
+    ballast: Option<f64>,
+    baseline: Option<f64>,
+    force: f64,
+}
+
+fn yf(v: &Y) -> Option<f64> {
+    match v { Y::Number(n) => n.as_f64(), _ => None }
+}
+fn yopt(x: Option<f64>) -> Y {
+    match x { Some(v) => Y::from(v), None => Y::Null }
+}
+fn comp_from_y(v: &Y, s: Slot) -> CompV {
+    CompV { mass: yf(&v["mass"]), spec: yf(&v[s.spec_key()]), rating: yf(&v[s.rating_key()]).unwrap_or(f64::NAN) }
+}
+fn comp_into_y(v: &mut Y, s: Slot, c: &CompV) {
+    v["mass"] = yopt(c.mass);
+    v[s.spec_key()] = yopt(c.spec);
+    v[s.rating_key()] = Y::from(c.rating);
+}
+fn kind_of(l: &Locomotive) -> Kind {
+    match &l.loco_type {
+        PowertrainType::ConventionalLoco(_) => Kind::Conv,
+        PowertrainType::HybridLoco(_) => Kind::Hybrid,
+        PowertrainType::BatteryElectricLoco(_) => Kind::Bel,
+        PowertrainType::DummyLoco(_) => Kind::Dummy,
+    }
+}
+pub fn view_loco(l: &Locomotive) -> LocoV {
+    let v = serde_yaml::to_value(l).unwrap();
+    let kind = kind_of(l);
+    let pt = &v["loco_type"][kind.variant()];
+    LocoV {
+        kind,
+        comps: kind.slots().iter().map(|s| comp_from_y(&pt[s.name()], *s)).collect(),
+        mass: yf(&v["mass"]),
+        mu: yf(&v["mu"]),
+        ballast: yf(&v["ballast_mass"]),
+        baseline: yf(&v["baseline_mass"]),
+        force: yf(&v["force_max"]).unwrap_or(f64::NAN),
+    }
+}
+
+pub trait CompLike: Mass + Clone + PartialEq + serde::Serialize + serde::de::DeserializeOwned + SerdeAPI {
+    const SLOT: Slot;
+}
+impl CompLike for FuelConverter { const SLOT: Slot = Slot::Fc; }
+impl CompLike for Generator { const SLOT: Slot = Slot::Gen; }
+impl CompLike for ReversibleEnergyStorage { const SLOT: Slot = Slot::Res; }
+fn view_comp<T: CompLike>(c: &T) -> CompV {
+    comp_from_y(&serde_yaml::to_value(c).unwrap(), T::SLOT)
+}
+
+// ---------------------------------------------------------------- templates / builders
+
+pub struct Tmpl { fc: Y, gen: Y, res: Y, edrv: Y, loco: Y, hybrid: Y }
+impl Tmpl {
+    pub fn new() -> Self {
+        let mut fc = FuelConverter::default();
+        fc.save_interval = None;
+        let mut gen = Generator::default();
+        gen.save_interval = None;
+        let mut edrv = ElectricDrivetrain::default();
+        edrv.save_interval = None;
+        let mut res = ReversibleEnergyStorage::default();
+        res.save_interval = None;
+        res.eta_interp_grid = [vec![23.0], vec![0.5], vec![1.0]];
+        res.eta_interp_values = vec![vec![vec![0.95]]];
+        let mut loco = Locomotive::default();
+        loco.set_save_interval(None);
+        let hy = serde_yaml::to_value(&HybridLoco::default()).unwrap();
+        Tmpl {
+            fc: serde_yaml::to_value(&fc).unwrap(),
+            gen: serde_yaml::to_value(&gen).unwrap(),
+            res: serde_yaml::to_value(&res).unwrap(),
+            edrv: serde_yaml::to_value(&edrv).unwrap(),
+            loco: serde_yaml::to_value(&loco).unwrap(),
+            hybrid: hy,
         }
     }
-    let _ = (si::Mass::default(), uc::KG, ForceMaxSideEffect::Mass, MuSideEffect::Mass);
-    let _ = PowertrainType::DummyLoco(DummyLoco::default());
+    fn comp_y(&self, s: Slot, c: &CompV) -> Y {
+        let mut v = match s { Slot::Fc => self.fc.clone(), Slot::Gen => self.gen.clone(), Slot::Res => self.res.clone() };
+        comp_into_y(&mut v, s, c);
+        v
+    }
+    fn build_comp<T: CompLike>(&self, c: &CompV) -> T {
+        serde_yaml::from_value(self.comp_y(T::SLOT, c)).expect("component from template")
+    }
+    fn loco_y(&self, l: &LocoV) -> Y {
+        let mut v = self.loco.clone();
+        let mut pt = match l.kind {
+            Kind::Hybrid => self.hybrid.clone(),
+            _ => Y::Mapping(Default::default()),
+        };
+        for (s, c) in l.kind.slots().iter().zip(&l.comps) {
+            pt[s.name()] = self.comp_y(*s, c);
+        }
+        if l.kind != Kind::Dummy {
+            pt["edrv"] = self.edrv.clone();
+        }
+        let mut lt = serde_yaml::Mapping::new();
+        lt.insert(Y::from(l.kind.variant()), pt);
+        v["loco_type"] = Y::Mapping(lt);
+        v["mass"] = yopt(l.mass);
+        v["mu"] = yopt(l.mu);
+        v["ballast_mass"] = yopt(l.ballast);
+        v["baseline_mass"] = yopt(l.baseline);
+        v["force_max"] = Y::from(l.force);
+        v
+    }
+    pub fn build_loco(&self, l: &LocoV) -> Locomotive {
+        serde_yaml::from_value(self.loco_y(l)).expect("locomotive from template")
+    }
+}
+
+// ---------------------------------------------------------------- tokens
+
+fn of(x: &Option<f64>) -> String { opt(x, |v| f(*v)) }
+fn tok_comp(c: &CompV) -> String { format!("{} {} {}", of(&c.mass), of(&c.spec), f(c.rating)) }
+fn tok_loco(l: &LocoV) -> String {
+    let mut s = l.kind.name().to_string();
+    for c in &l.comps { s.push(' '); s.push_str(&tok_comp(c)); }
+    format!("{} {} {} {} {} {}", s, of(&l.mass), of(&l.mu), of(&l.ballast), of(&l.baseline), f(l.force))
+}
+fn tok_locos(ls: &[LocoV]) -> String { seq(ls, tok_loco) }
+
+fn mse_tok(se: &MassSideEffect) -> &'static str {
+    match se { MassSideEffect::None => "se_none", MassSideEffect::Extensive => "extensive", MassSideEffect::Intensive => "intensive" }
+}
+#[derive(Clone, Copy, Debug, PartialEq)]
+enum Fse { Mass, UpdateMu, SetMuToNone, SetMassToNone, SetMassAndMuToNone }
+impl Fse {
+    const ALL: [Fse; 5] = [Fse::Mass, Fse::UpdateMu, Fse::SetMuToNone, Fse::SetMassToNone, Fse::SetMassAndMuToNone];
+    fn tok(self) -> &'static str {
+        match self { Fse::Mass => "mass", Fse::UpdateMu => "update_mu", Fse::SetMuToNone => "set_mu_to_none",
+            Fse::SetMassToNone => "set_mass_to_none", Fse::SetMassAndMuToNone => "set_mass_and_mu_to_none" }
+    }
+    fn real(self) -> ForceMaxSideEffect {
+        match self { Fse::Mass => ForceMaxSideEffect::Mass, Fse::UpdateMu => ForceMaxSideEffect::UpdateMu,
+            Fse::SetMuToNone => ForceMaxSideEffect::SetMuToNone, Fse::SetMassToNone => ForceMaxSideEffect::SetMassToNone,
+            Fse::SetMassAndMuToNone => ForceMaxSideEffect::SetMassAndMuToNone }
+    }
+}
+#[derive(Clone, Copy, Debug, PartialEq)]
+enum Muse { Mass, ForceMax, SetMassToNone }
+impl Muse {
+    const ALL: [Muse; 3] = [Muse::Mass, Muse::ForceMax, Muse::SetMassToNone];
+    fn tok(self) -> &'static str { match self { Muse::Mass => "mass", Muse::ForceMax => "force_max", Muse::SetMassToNone => "set_mass_to_none" } }
+    fn real(self) -> MuSideEffect {
+        match self { Muse::Mass => MuSideEffect::Mass, Muse::ForceMax => MuSideEffect::ForceMax, Muse::SetMassToNone => MuSideEffect::SetMassToNone }
+    }
+}
+
+/// a number the model's `eqb`/printing treats differently from IEEE: NaN or -0.0
+fn odd(x: f64) -> bool { x.is_nan() || (x == 0.0 && x.is_sign_negative()) }
+fn odd_o(x: &Option<f64>) -> bool { x.map_or(false, odd) }
+fn comp_odd(c: &CompV) -> bool { odd_o(&c.mass) || odd_o(&c.spec) || odd(c.rating) }
+fn loco_odd(l: &LocoV) -> bool {
+    l.comps.iter().any(comp_odd) || odd_o(&l.mass) || odd_o(&l.mu) || odd_o(&l.ballast) || odd_o(&l.baseline) || odd(l.force)
+}
+fn fin_o(x: &Option<f64>) -> bool { x.map_or(true, |v| v.is_finite()) }
+fn comp_fin(c: &CompV) -> bool { fin_o(&c.mass) && fin_o(&c.spec) && c.rating.is_finite() }
+fn loco_fin(l: &LocoV) -> bool {
+    l.comps.iter().all(comp_fin) && fin_o(&l.mass) && fin_o(&l.mu) && fin_o(&l.ballast) && fin_o(&l.baseline) && l.force.is_finite()
+}
+
+fn res_tok<T>(r: &Option<anyhow::Result<T>>, g: impl Fn(&T) -> String) -> String {
+    match r { None => "panic".into(), Some(Err(_)) => "err".into(), Some(Ok(v)) => format!("ok {}", g(v)) }
+}
+fn om(x: &Option<si_mass>) -> String { opt(x, |v| f(v.value)) }
+#[allow(non_camel_case_types)]
+type si_mass = altrios_core::si::Mass;
+
+
+// ---------------------------------------------------------------- oracle helpers (never consult the model)
+
+/// equality up to a tolerance clearly LOOSER than `almost_eq(.., 1e-8)`: never fires on float noise
+fn close_loose(a: f64, b: f64) -> bool {
+    (a - b).abs() <= 4.0 * EPS * a.abs().max(b.abs()) + 2.0 * EPS
+}
+/// clearly INSIDE `almost_eq(.., 1e-8)`
+fn close_tight(a: f64, b: f64) -> bool {
+    (a - b).abs() <= 0.25 * EPS * a.abs().min(b.abs())
+}
+/// two computations of the same product/quotient
+fn same(a: f64, b: f64) -> bool {
+    a == b || (a - b).abs() <= 1e-12 * a.abs().max(b.abs())
+}
+fn same_o(a: &Option<f64>, b: &Option<f64>) -> bool {
+    match (a, b) { (None, None) => true, (Some(x), Some(y)) => same(*x, *y), _ => false }
+}
+
+fn comp_derived_o(c: &CompV) -> Option<f64> { c.spec.map(|s| c.rating / s) }
+/// the component's own invariant on its fields
+fn comp_inv(c: &CompV) -> bool {
+    match (c.mass, comp_derived_o(c)) { (Some(m), Some(d)) => close_loose(m, d), _ => true }
+}
+fn comp_json(c: &CompV) -> serde_json::Value { json!({"mass": c.mass, "specific": c.spec, "rating": c.rating}) }
+fn loco_json(l: &LocoV) -> serde_json::Value {
+    json!({"kind": l.kind.name(), "comps": l.comps.iter().map(comp_json).collect::<Vec<_>>(), "mass": l.mass, "mu": l.mu,
+           "ballast_mass": l.ballast, "baseline_mass": l.baseline, "force_max": l.force})
+}
+
+/// what the locomotive's mass derived from its parts is, computed from the fields alone:
+/// `Some(Some(d))` known, `Some(None)` legitimately unknown, `None` undefined (partial data)
+fn loco_derived_o(l: &LocoV) -> Option<Option<f64>> {
+    if !l.comps.iter().all(comp_inv) { return None; }
+    match (l.baseline, l.ballast) {
+        (Some(base), Some(bal)) => {
+            if l.kind == Kind::Dummy || l.comps.iter().any(|c| c.mass.is_none()) { return None; }
+            Some(Some(l.comps.iter().map(|c| c.mass.unwrap()).sum::<f64>() + base + bal))
+        }
+        (None, None) => {
+            if l.kind == Kind::Dummy { return Some(Some(0.0)); }
+            if l.comps.iter().all(|c| c.mass.is_none()) { Some(None) } else { None }
+        }
+        _ => None,
+    }
+}
+fn inv_mass_fields(l: &LocoV) -> bool {
+    match (l.mass, loco_derived_o(l)) { (Some(m), Some(Some(d))) => close_loose(m, d), _ => true }
+}
+fn g() -> f64 { uc::ACC_GRAV.value }
+fn inv_force_fields(l: &LocoV) -> bool {
+    match (l.mu, l.mass) { (Some(mu), Some(m)) => close_loose(l.force, mu * m * g()), _ => true }
+}
+
+// ---------------------------------------------------------------- value pools
+
+const MASSES: [f64; 7] = [500.0, 1000.0, 2000.0, 4000.0, 8000.0, 12500.0, 20000.0];
+const SPECS: [f64; 5] = [0.5, 2.0, 64.0, 250.0, 1024.0];
+const NEAR: [f64; 8] = [1e-9, -1e-9, 5e-9, -5e-9, 3e-8, -3e-8, 1e-6, -1e-6];
+
+fn near(r: &mut Rng, x: f64) -> f64 {
+    if r.chance(0.15) { x + *r.pick(&[1e-9, -1e-9, 5e-8]) } else { x * (1.0 + *r.pick(&NEAR)) }
+}
+fn pick_se(r: &mut Rng) -> MassSideEffect {
+    match r.below(3) { 0 => MassSideEffect::None, 1 => MassSideEffect::Extensive, _ => MassSideEffect::Intensive }
+}
+
+fn gen_comp(r: &mut Rng, want_mass: Option<bool>, malformed: bool) -> CompV {
+    let m = *r.pick(&MASSES);
+    let s = *r.pick(&SPECS);
+    let spec = if r.chance(0.7) { Some(s) } else { None };
+    let rating = if r.chance(0.8) { s * m } else { r.f64_in(1.0e5, 5.0e6) };
+    let d = spec.map(|s| rating / s);
+    let has = want_mass.unwrap_or_else(|| r.chance(0.65));
+    let mass = if !has { None } else {
+        match (d, r.below(10)) {
+            (Some(d), 0..=5) => Some(d),
+            (Some(d), 6..=7) => Some(near(r, d)),
+            _ if want_mass == Some(true) => Some(d.unwrap_or(m)),
+            _ => Some(*r.pick(&MASSES)),
+        }
+    };
+    let mut c = CompV { mass, spec, rating };
+    if malformed {
+        match r.below(6) {
+            0 => c.spec = Some(0.0),
+            1 => c.rating = 0.0,
+            2 => c.mass = Some(0.0),
+            3 => c.spec = Some(-2.0),
+            4 => c.mass = Some(-1000.0),
+            _ => c.rating = f64::INFINITY,
+        }
+    }
+    c
+}
+
+fn pick_new_mass(r: &mut Rng, cur_derived: Option<f64>, cur_mass: Option<f64>, malformed: bool) -> Option<f64> {
+    if malformed && r.chance(0.3) { return Some(*r.pick(&[0.0, -500.0, 1e-9, f64::INFINITY])); }
+    match r.below(20) {
+        0..=2 => None,
+        3..=9 => Some(*r.pick(&MASSES)),
+        10..=12 => cur_derived.or(cur_mass).or(Some(1000.0)),
+        13..=15 => Some(near(r, cur_derived.or(cur_mass).unwrap_or(2000.0))),
+        _ => Some((r.f64_in(100.0, 50000.0) * 8.0).round() / 8.0),
+    }
+}
+
+// ---------------------------------------------------------------- components
+
+fn oracle_comp_set(ctx: &mut Ctx, id: &str, slot: Slot, pre: &CompV, new: Option<f64>, se: &MassSideEffect, post: &CompV,
+                   getter: &Option<anyhow::Result<Option<si_mass>>>) {
+    let input = json!({"kind": "component_set_mass", "component": slot.name(), "pre": comp_json(pre), "new_mass": new,
+                       "side_effect": mse_tok(se), "post": comp_json(post)});
+    let fin = comp_fin(pre) && new.map_or(true, |x| x.is_finite());
+    // division guards of the theorems (DESIGN §7.20): specific != 0, rating != 0, m != 0
+    let differs = matches!((comp_derived_o(pre), new), (Some(d), Some(n)) if d != n);
+    let guard_ok = fin && match se {
+        MassSideEffect::Extensive => !differs || pre.spec != Some(0.0),
+        MassSideEffect::Intensive => !differs || (pre.rating != 0.0 && new != Some(0.0)),
+        MassSideEffect::None => true,
+    };
+    if !guard_ok { ctx.count("mass.comp.out_of_domain"); return; }
+    ctx.count("mass.comp.in_domain");
+    ctx.checked(P, "comp_inv_after_set");
+    if !comp_inv(post) {
+        ctx.fail(P, "comp_inv_after_set", id, format!("{} after accepted set_mass({:?}, {}): mass {:?} != derived {:?}",
+            slot.name(), new, mse_tok(se), post.mass, comp_derived_o(post)), input.clone());
+    }
+    // the getter must report the stored mass (it is consistent, clearly inside the tolerance or not at all)
+    ctx.checked(P, "comp_getter_after_set");
+    match getter {
+        Some(Ok(m)) => {
+            if m.map(|x| x.value) != post.mass {
+                ctx.fail(P, "comp_getter_after_set", id, format!("mass() returned {:?}, field is {:?}", m.map(|x| x.value), post.mass), input.clone());
+            }
+        }
+        _ => {
+            let clearly = match (post.mass, comp_derived_o(post)) { (Some(m), Some(d)) => close_tight(m, d) || m == d, _ => true };
+            if clearly {
+                ctx.fail(P, "comp_getter_after_set", id, "mass() failed on a consistent component".into(), input.clone());
+            }
+        }
+    }
+    // resolved exactly as the option states
+    ctx.checked(P, "comp_side_effect_exact");
+    let mut bad: Option<String> = None;
+    if post.mass != new { bad = Some(format!("mass field {:?} != requested {:?}", post.mass, new)); }
+    if let Some(n) = new {
+        if differs {
+            ctx.count(&format!("mass.comp.resolve.{}", mse_tok(se)));
+            match se {
+                MassSideEffect::Extensive => {
+                    if !(same(post.rating, pre.spec.unwrap() * n) && post.spec == pre.spec) {
+                        bad = Some(format!("Extensive: rating' {} != specific {} * m {}, or specific changed", post.rating, pre.spec.unwrap(), n));
+                    }
+                }
+                MassSideEffect::Intensive => {
+                    if !(same_o(&post.spec, &Some(pre.rating / n)) && post.rating == pre.rating) {
+                        bad = Some(format!("Intensive: specific' {:?} != rating {} / m {}, or rating changed", post.spec, pre.rating, n));
+                    }
+                }
+                MassSideEffect::None => {
+                    if !(post.spec.is_none() && post.rating == pre.rating) {
+                        bad = Some(format!("None: specific' {:?} must be None, rating unchanged", post.spec));
+                    }
+                }
+            }
+        } else {
+            ctx.count("mass.comp.resolve.nothing_to_do");
+            if !(post.spec == pre.spec && post.rating == pre.rating) {
+                bad = Some("no inconsistency to resolve but specific/rating changed".into());
+            }
+        }
+    }
+    if let Some(d) = bad { ctx.fail(P, "comp_side_effect_exact", id, d, input); }
+}
+
+fn comp_case<T: CompLike>(ctx: &mut Ctx, r: &mut Rng, t: &Tmpl, malformed: bool) {
+    let slot = T::SLOT;
+    let start = gen_comp(r, None, malformed);
+    let mut c: T = t.build_comp(&start);
+    ctx.count(&format!("mass.comp.start.mass_{}.spec_{}", start.mass.is_some(), start.spec.is_some()));
+    let n = r.usize(1, 12);
+    for _ in 0..n {
+        let pre = view_comp(&c);
+        let emit = !comp_odd(&pre);
+        match r.below(20) {
+            0..=11 => {
+                let new = pick_new_mass(r, comp_derived_o(&pre), pre.mass, malformed);
+                let se = pick_se(r);
+                let mut c2 = c.clone();
+                let res = guard(|| c2.set_mass(new.map(|m| uc::KG * m), se.clone()));
+                let post = view_comp(&c2);
+                let a = match &res { None => "panic".to_string(), Some(Err(_)) => "err".into(), Some(Ok(())) => format!("ok {}", tok_comp(&post)) };
+                let id = if emit && !new.map_or(false, odd) {
+                    ctx.op(P, &format!("{}_set_mass", slot.name()), &format!("{} {} {}", tok_comp(&pre), of(&new), mse_tok(&se)), &a)
+                } else { ctx.count("mass.skip_odd"); format!("{}-unemitted", slot.name()) };
+                match res {
+                    None => {
+                        ctx.checked(P, "no_panic");
+                        ctx.fail(P, "no_panic", &id, "component set_mass panicked".into(), json!({"pre": comp_json(&pre), "new": new, "se": mse_tok(&se)}));
+                        return;
+                    }
+                    Some(Err(_)) => { ctx.count("mass.comp.set.err"); c = c2; }
+                    Some(Ok(())) => {
+                        ctx.count("mass.comp.set.ok");
+                        let getter = guard(|| c2.mass());
+                        oracle_comp_set(ctx, &id, slot, &pre, new, &se, &post, &getter);
+                        ctx.sample("mass.comp_set", json!({"component": slot.name(), "pre": comp_json(&pre), "new": new, "se": mse_tok(&se), "post": comp_json(&post)}));
+                        c = c2;
+                    }
+                }
+            }
+            12..=15 => {
+                let res = guard(|| c.mass());
+                if emit { ctx.op(P, &format!("{}_mass", slot.name()), &tok_comp(&pre), &res_tok(&res, om)); }
+                // getter: Ok only on a consistent object, and then the stored field
+                ctx.checked(P, "comp_getter");
+                let inp = json!({"kind": "component_mass_getter", "component": slot.name(), "state": comp_json(&pre)});
+                match (&res, pre.mass, comp_derived_o(&pre)) {
+                    (None, _, _) => ctx.fail(P, "no_panic", "getter", "mass() panicked".into(), inp),
+                    (Some(Ok(m)), pm, d) => {
+                        ctx.count("mass.comp.get.ok");
+                        let consistent = match (pm, d) { (Some(a), Some(b)) => close_loose(a, b), _ => true };
+                        if m.map(|x| x.value) != pm || !consistent {
+                            ctx.fail(P, "comp_getter", "getter", format!("mass() = Ok({:?}) on fields mass {:?}, derived {:?}", m.map(|x| x.value), pm, d), inp);
+                        }
+                    }
+                    (Some(Err(_)), pm, d) => {
+                        ctx.count("mass.comp.get.err");
+                        let clearly = match (pm, d) { (Some(a), Some(b)) => close_tight(a, b) || a == b, _ => true };
+                        if clearly { ctx.fail(P, "comp_getter", "getter", format!("mass() = Err on consistent fields mass {:?}, derived {:?}", pm, d), inp); }
+                    }
+                }
+            }
+            16..=17 => {
+                let res = guard(|| c.derived_mass());
+                if emit { ctx.op(P, &format!("{}_derived_mass", slot.name()), &tok_comp(&pre), &res_tok(&res, om)); }
+            }
+            18 => {
+                let mut c2 = c.clone();
+                c2.expunge_mass_fields();
+                let post = view_comp(&c2);
+                if emit { ctx.op(P, &format!("{}_expunge", slot.name()), &tok_comp(&pre), &format!("ok {}", tok_comp(&post))); }
+                c = c2;
+            }
+            _ => {
+                // load from YAML text with whatever (redundant) mass data the object now holds
+                let y = c.to_yaml().unwrap();
+                let res = guard(|| T::from_yaml(&y));
+                let a = match &res { None => "panic", Some(Err(_)) => "err", Some(Ok(_)) => "ok" };
+                if emit && comp_fin(&pre) { ctx.op(P, &format!("{}_load", slot.name()), &tok_comp(&pre), a); }
+                ctx.checked(P, "load_accepts_only_consistent");
+                ctx.count(&format!("mass.comp.load.{}", a));
+                if let Some(Ok(_)) = res {
+                    if !comp_inv(&pre) {
+                        ctx.fail(P, "load_accepts_only_consistent", slot.name(),
+                            format!("{}::from_yaml accepted mass {:?} with derived {:?}", slot.name(), pre.mass, comp_derived_o(&pre)),
+                            json!({"kind": "component_load", "component": slot.name(), "fields": comp_json(&pre), "yaml": y}));
+                    }
+                }
+            }
+        }
+    }
+}
+
+// ---------------------------------------------------------------- locomotives
+
+const MUS: [f64; 4] = [0.2, 0.25, 0.3, 0.35];
+const FORCES: [f64; 4] = [300.0e3, 500.0e3, 667.2e3, 800.0e3];
+const LOCO_MASSES: [f64; 4] = [100000.0, 150000.0, 195000.0, 220000.0];
+
+pub fn gen_loco_v(r: &mut Rng, malformed: bool) -> LocoV {
+    let kind = match r.below(20) { 0..=7 => Kind::Conv, 8..=14 => Kind::Bel, 15..=17 => Kind::Hybrid, _ => Kind::Dummy };
+    // mass mode: 0 = nothing known below the locomotive, 1 = everything known, 2 = partial (derived undefined)
+    let mode = match r.below(20) { 0..=8 => 0, 9..=17 => 1, _ => 2 };
+    let comps: Vec<CompV> = kind.slots().iter().map(|_| {
+        let want = match mode { 0 => Some(false), 1 => Some(true), _ => None };
+        let mut c = gen_comp(r, want, false);
+        if mode == 1 && r.chance(0.9) { if let Some(d) = comp_derived_o(&c) { c.mass = Some(d); } }
+        c
+    }).collect();
+    let (baseline, ballast) = match mode {
+        0 => (None, None),
+        1 => if kind == Kind::Dummy { (None, None) } else { (Some(*r.pick(&[90000.0, 120000.0, 150000.0])), Some(*r.pick(&[0.0, 5000.0, 20000.0]))) },
+        _ => match r.below(3) { 0 => (Some(100000.0), None), 1 => (None, Some(5000.0)), _ => (Some(100000.0), Some(5000.0)) },
+    };
+    let mut l = LocoV { kind, comps, mass: None, mu: None, ballast, baseline, force: *r.pick(&FORCES) };
+    let d = loco_derived_o(&l).flatten();
+    l.mass = match (d, r.below(20)) {
+        (_, 0..=4) => None,
+        (Some(d), 5..=15) => Some(d),
+        (Some(d), 16..=17) => Some(near(r, d)),
+        (Some(_), _) => Some(*r.pick(&LOCO_MASSES)),
+        (None, _) => Some(*r.pick(&LOCO_MASSES)),
+    };
+    l.mu = if r.chance(0.35) { None } else { Some(*r.pick(&MUS)) };
+    if let (Some(mu), Some(m)) = (l.mu, l.mass) {
+        l.force = match r.below(20) { 0..=13 => mu * m * g(), 14..=16 => near(r, mu * m * g()), _ => *r.pick(&FORCES) };
+    }
+    if malformed {
+        match r.below(6) {
+            0 => l.mu = Some(0.0),
+            1 => l.mass = Some(0.0),
+            2 => l.force = 0.0,
+            3 => l.mu = Some(-0.3),
+            4 => l.mass = Some(-1000.0),
+            _ => l.force = -5.0,
+        }
+    }
+    l
+}
+
+#[derive(Clone, Debug)]
+enum LOp {
+    SetMass(Option<f64>, MassSideEffect),
+    SetForce(f64, Fse),
+    SetMu(f64, Muse),
+    CompSet(Slot, Option<f64>, MassSideEffect),
+    GetMass, GetMu, GetForce, GetDerivedTrait, Expunge, Load,
+}
+
+fn pick_lop(r: &mut Rng, v: &LocoV, malformed: bool) -> LOp {
+    let d = loco_derived_o(v).flatten();
+    match r.below(40) {
+        0..=8 => {
+            let new = match r.below(12) {
+                0..=1 => None,
+                2..=3 => v.mass.or(Some(195000.0)),
+                4..=5 => d.or(Some(150000.0)),
+                6..=7 => match v.mu { Some(mu) if mu != 0.0 => Some(v.force / (mu * g())), _ => Some(100000.0) },
+                8 => Some(near(r, v.mass.or(d).unwrap_or(195000.0))),
+                _ => Some(*r.pick(&LOCO_MASSES)),
+            };
+            let new = if malformed && r.chance(0.2) { Some(*r.pick(&[0.0, -1.0])) } else { new };
+            let se = if r.chance(0.88) { MassSideEffect::None } else { pick_se(r) };
+            LOp::SetMass(new, se)
+        }
+        9..=19 => {
+            let fm = match (v.mu, v.mass, r.below(10)) {
+                (_, _, 0..=1) => v.force,
+                (Some(mu), Some(m), 2..=4) => mu * m * g(),
+                (Some(mu), Some(m), 5) => near(r, mu * m * g()),
+                _ => *r.pick(&FORCES),
+            };
+            let fm = if malformed && r.chance(0.2) { *r.pick(&[0.0, -100.0]) } else { fm };
+            LOp::SetForce(fm, *r.pick(&Fse::ALL))
+        }
+        20..=28 => {
+            let mu = match (v.mass, r.below(10)) {
+                (_, 0..=1) => v.mu.unwrap_or(0.3),
+                (Some(m), 2..=4) if m != 0.0 => v.force / (m * g()),
+                _ => *r.pick(&MUS),
+            };
+            let mu = if malformed && r.chance(0.2) { *r.pick(&[0.0, -0.2]) } else { mu };
+            LOp::SetMu(mu, *r.pick(&Muse::ALL))
+        }
+        29..=31 => {
+            let slot = *r.pick(&[Slot::Fc, Slot::Gen, Slot::Res]);
+            let cur = v.kind.slots().iter().position(|s| *s == slot).map(|i| v.comps[i].clone());
+            let new = pick_new_mass(r, cur.as_ref().and_then(comp_derived_o), cur.and_then(|c| c.mass), false);
+            LOp::CompSet(slot, new, pick_se(r))
+        }
+        32..=33 => LOp::GetMass,
+        34 => LOp::GetMu,
+        35..=36 => LOp::GetForce,
+        37 => LOp::GetDerivedTrait,
+        38 => LOp::Expunge,
+        _ => LOp::Load,
+    }
+}
+
+/// getters: `Ok` only on consistent fields (and then the stored value); `Err` only when not clearly consistent
+fn oracle_loco_getters(ctx: &mut Ctx, id: &str, l: &Locomotive, v: &LocoV, input: &serde_json::Value) {
+    if !loco_fin(v) { return; }
+    let fm = guard(|| l.force_max());
+    let mu = guard(|| l.mu());
+    let ms = guard(|| l.mass());
+    if fm.is_none() || mu.is_none() || ms.is_none() {
+        ctx.checked(P, "no_panic");
+        ctx.fail(P, "no_panic", id, "a locomotive getter panicked".into(), input.clone());
+        return;
+    }
+    ctx.checked(P, "loco_getters_report_consistent_values");
+    let force_loose = inv_force_fields(v);
+    let force_tight = match (v.mu, v.mass) { (Some(mu), Some(m)) => close_tight(v.force, mu * m * g()) || v.force == mu * m * g(), _ => true };
+    let mut bad: Option<String> = None;
+    match fm.unwrap() {
+        Ok(x) => if x.value != v.force || !force_loose { bad = Some(format!("force_max() = Ok({}) on force_max {} mu {:?} mass {:?}", x.value, v.force, v.mu, v.mass)); },
+        Err(_) => if force_tight { bad = Some("force_max() = Err on consistent fields".into()); },
+    }
+    match mu.unwrap() {
+        Ok(x) => if x.map(|q| q.value) != v.mu || !force_loose { bad = Some(format!("mu() = Ok({:?}) on force_max {} mu {:?} mass {:?}", x.map(|q| q.value), v.force, v.mu, v.mass)); },
+        Err(_) => if force_tight { bad = Some("mu() = Err on consistent fields".into()); },
+    }
+    match (ms.unwrap(), loco_derived_o(v)) {
+        (Ok(x), Some(d)) => {
+            let want = v.mass.or(d);
+            if !same_o(&x.map(|q| q.value), &want) || !inv_mass_fields(v) {
+                bad = Some(format!("mass() = Ok({:?}) on mass {:?}, derived {:?}", x.map(|q| q.value), v.mass, d));
+            }
+        }
+        (Ok(x), None) => bad = Some(format!("mass() = Ok({:?}) although the derived mass is undefined (partial mass data)", x.map(|q| q.value))),
+        (Err(_), Some(d)) => {
+            let tight = match (v.mass, d) { (Some(m), Some(d)) => close_tight(m, d) || m == d, _ => true };
+            if tight { bad = Some(format!("mass() = Err on consistent mass {:?}, derived {:?}", v.mass, d)); }
+        }
+        (Err(_), None) => {}
+    }
+    if let Some(d) = bad { ctx.fail(P, "loco_getters_report_consistent_values", id, d, input.clone()); }
+}
+
+struct SeqState {
+    /// the mass half of the invariant is owed: true from a consistent start, re-established by every accepted
+    /// call that validates the mass, lost by a nested component update
+    mass_owed: bool,
+    history: Vec<serde_json::Value>,
+    start: serde_json::Value,
+    had_reject: bool,
+}
+
+#[allow(clippy::too_many_arguments)]
+fn oracle_loco_setter(ctx: &mut Ctx, id: &str, st: &mut SeqState, op: &LOp, pre: &LocoV, post: &LocoV, ok: bool) {
+    let input = json!({"kind": "locomotive_sequence", "start": st.start, "calls": st.history, "pre_of_last": loco_json(pre), "post_of_last": loco_json(post)});
+    let opname = match op { LOp::SetMass(..) => "set_mass", LOp::SetForce(_, se) => se.tok(), LOp::SetMu(_, se) => se.tok(), _ => "other" };
+    let opk = match op { LOp::SetMass(..) => "set_mass".to_string(), LOp::SetForce(_, se) => format!("set_force_max.{}", se.tok()), LOp::SetMu(_, se) => format!("set_mu.{}", se.tok()), _ => "other".into() };
+    if !ok {
+        st.had_reject = true;
+        let mutated = pre != post;
+        ctx.count(&format!("mass.loco.reject.{}.{}", opk, if mutated { "mutated" } else { "clean" }));
+        if mutated && inv_force_fields(pre) && !inv_force_fields(post) { ctx.count("mass.loco.reject.leaves_force_inconsistent"); }
+        return;
+    }
+    ctx.count(&format!("mass.loco.accept.{}", opk));
+    if st.had_reject { ctx.count("mass.loco.accept_after_reject"); }
+    let fin = loco_fin(pre) && loco_fin(post);
+    // ---- force half: owed after EVERY accepted call, from any state (guard: UpdateMu divides by m*g)
+    let guard_ok = fin && match op {
+        LOp::SetForce(_, Fse::UpdateMu) => pre.mass != Some(0.0),
+        _ => true,
+    };
+    if guard_ok {
+        ctx.checked(P, "inv_force_after_accept");
+        if !inv_force_fields(post) {
+            ctx.fail(P, "inv_force_after_accept", id, format!("after accepted {}: force_max {} vs mu {:?} * mass {:?} * g = {:?}",
+                opk, post.force, post.mu, post.mass, post.mu.zip(post.mass).map(|(a, b)| a * b * g())), input.clone());
+        }
+    } else { ctx.count("mass.loco.out_of_domain"); }
+    // ---- mass half
+    let validates_mass = !matches!(op, LOp::SetForce(_, Fse::UpdateMu) | LOp::SetForce(_, Fse::SetMuToNone));
+    if validates_mass { st.mass_owed = true; }
+    if st.mass_owed && fin {
+        let clause = if pre.kind == Kind::Dummy { "inv_mass_after_accept_dummy" } else { "inv_mass_after_accept" };
+        ctx.checked(P, clause);
+        if !inv_mass_fields(post) {
+            ctx.fail(P, clause, id, format!("after accepted {} ({} locomotive, sequence from a consistent start): mass {:?} vs derived {:?}",
+                opk, pre.kind.name(), post.mass, loco_derived_o(post)), input.clone());
+        }
+    }
+    // ---- resolved exactly as the option states
+    if !fin { return; }
+    ctx.checked(P, "loco_side_effect_exact");
+    let mut bad: Option<String> = None;
+    match op {
+        LOp::SetMass(new, _) => {
+            let want = new.or(loco_derived_o(pre).flatten());
+            if post.mass != want && !(new.is_none() && same_o(&post.mass, &want)) { bad = Some(format!("mass' {:?} != {:?}", post.mass, want)); }
+            if post.mu != pre.mu { bad = Some("set_mass changed mu".into()); }
+            if let (Some(mu), Some(m)) = (post.mu, post.mass) { if !same(post.force, mu * m * g()) { bad = Some("force_max' != mu*m*g".into()); } }
+        }
+        LOp::SetForce(fm, Fse::Mass) => {
+            if post.mu != pre.mu { bad = Some("Mass option changed mu".into()); }
+            match pre.mu {
+                Some(mu) => if !(same_o(&post.mass, &Some(fm / (mu * g()))) && close_loose(post.force, *fm)) { bad = Some(format!("mass' {:?} != F/(mu g) {} or force' {} != F {}", post.mass, fm / (mu * g()), post.force, fm)); },
+                None => bad = Some("accepted without a traction coefficient".into()),
+            }
+        }
+        LOp::SetForce(fm, Fse::UpdateMu) => {
+            let want = pre.mass.map(|m| fm / (m * g()));
+            if !(post.force == *fm && post.mass == pre.mass && same_o(&post.mu, &want)) { bad = Some(format!("UpdateMu: force' {} mass' {:?} mu' {:?} (want {:?})", post.force, post.mass, post.mu, want)); }
+        }
+        LOp::SetForce(fm, Fse::SetMuToNone) => if !(post.force == *fm && post.mass == pre.mass && post.mu.is_none()) { bad = Some("SetMuToNone".into()); },
+        LOp::SetForce(fm, Fse::SetMassToNone) => if !(post.force == *fm && post.mass.is_none() && post.mu == pre.mu) { bad = Some("SetMassToNone".into()); },
+        LOp::SetForce(fm, Fse::SetMassAndMuToNone) => if !(post.force == *fm && post.mass.is_none() && post.mu.is_none()) { bad = Some("SetMassAndMuToNone".into()); },
+        LOp::SetMu(mu, Muse::Mass) => {
+            if !(post.mu == Some(*mu) && same_o(&post.mass, &Some(pre.force / (mu * g()))) && close_loose(post.force, pre.force)) {
+                bad = Some(format!("set_mu/Mass: mu' {:?} mass' {:?} (want {}) force' {} (want {})", post.mu, post.mass, pre.force / (mu * g()), post.force, pre.force));
+            }
+        }
+        LOp::SetMu(mu, Muse::ForceMax) => {
+            let m = pre.mass.or(loco_derived_o(pre).flatten());
+            match m {
+                Some(m) => if !(post.mu == Some(*mu) && post.mass == pre.mass && same(post.force, mu * g() * m)) { bad = Some(format!("set_mu/ForceMax: force' {} != mu g m {}", post.force, mu * g() * m)); },
+                None => bad = Some("set_mu/ForceMax accepted without any mass".into()),
+            }
+        }
+        LOp::SetMu(mu, Muse::SetMassToNone) => if !(post.mu == Some(*mu) && post.mass.is_none() && post.force == pre.force) { bad = Some("set_mu/SetMassToNone".into()); },
+        _ => {}
+    }
+    // no locomotive-level setter may touch baseline / ballast, and components only by expunging
+    if post.baseline != pre.baseline || post.ballast != pre.ballast { bad = Some("baseline/ballast changed".into()); }
+    if let Some(d) = bad { ctx.fail(P, "loco_side_effect_exact", id, format!("{} ({}): {}", opk, opname, d), input); }
+}
+
+fn loco_case(ctx: &mut Ctx, r: &mut Rng, t: &Tmpl, malformed: bool, scripted: Option<Vec<LOp>>, start: Option<LocoV>) {
+    let start = start.unwrap_or_else(|| gen_loco_v(r, malformed));
+    let mut l = t.build_loco(&start);
+    debug_assert!(view_loco(&l) == start || loco_odd(&start));
+    let consistent_start = inv_mass_fields(&start) && inv_force_fields(&start) && start.comps.iter().all(comp_inv);
+    ctx.count(&format!("mass.loco.start.{}.{}", start.kind.name(), if consistent_start { "consistent" } else { "inconsistent" }));
+    ctx.count(&format!("mass.loco.start.known.mass_{}.mu_{}.derived_{}", start.mass.is_some(), start.mu.is_some(),
+        match loco_derived_o(&start) { Some(Some(_)) => "some", Some(None) => "none", None => "undefined" }));
+    let mut st = SeqState { mass_owed: consistent_start, history: vec![], start: loco_json(&start), had_reject: false };
+    let n = scripted.as_ref().map_or_else(|| r.usize(1, 12), |s| s.len());
+    for i in 0..n {
+        let pre = view_loco(&l);
+        let emit = !loco_odd(&pre);
+        let op = match &scripted { Some(s) => s[i].clone(), None => pick_lop(r, &pre, malformed) };
+        let pre_tok = tok_loco(&pre);
+        match &op {
+            LOp::SetMass(..) | LOp::SetForce(..) | LOp::SetMu(..) => {
+                let mut l2 = l.clone();
+                let (res, name, args, odd_arg) = match &op {
+                    LOp::SetMass(new, se) => (guard(|| l2.set_mass(new.map(|m| uc::KG * m), se.clone())), "loco_set_mass", format!("{} {}", of(new), mse_tok(se)), new.map_or(false, odd)),
+                    LOp::SetForce(fm, se) => (guard(|| l2.set_force_max(uc::N * *fm, se.real())), "loco_set_force_max", format!("{} {}", f(*fm), se.tok()), odd(*fm)),
+                    LOp::SetMu(mu, se) => (guard(|| l2.set_mu(uc::R * *mu, se.real())), "loco_set_mu", format!("{} {}", f(*mu), se.tok()), odd(*mu)),
+                    _ => unreachable!(),
+                };
+                let post = view_loco(&l2);
+                st.history.push(json!({"call": name, "args": format!("{:?}", op), "result": match &res { None => "panic", Some(Ok(())) => "ok", Some(Err(_)) => "err" }}));
+                let a = match &res { None => "panic".to_string(), Some(Err(_)) => format!("err {}", tok_loco(&post)), Some(Ok(())) => format!("ok {}", tok_loco(&post)) };
+                let id = if emit && !odd_arg { ctx.op(P, name, &format!("{} {}", pre_tok, args), &a) } else { ctx.count("mass.skip_odd"); "unemitted".to_string() };
+                match res {
+                    None => {
+                        ctx.checked(P, "no_panic");
+                        ctx.fail(P, "no_panic", &id, format!("{} panicked", name), json!({"start": st.start, "calls": st.history}));
+                        return;
+                    }
+                    Some(r2) => {
+                        oracle_loco_setter(ctx, &id, &mut st, &op, &pre, &post, r2.is_ok());
+                        let inp = json!({"kind": "locomotive_sequence", "start": st.start, "calls": st.history, "state": loco_json(&post)});
+                        oracle_loco_getters(ctx, &id, &l2, &post, &inp);
+                        if i == 0 { ctx.sample("mass.loco_setter", json!({"pre": loco_json(&pre), "call": format!("{:?}", op), "ok": r2.is_ok(), "post": loco_json(&post)})); }
+                        l = l2;
+                    }
+                }
+            }
+            LOp::CompSet(slot, new, se) => {
+                let mut l2 = l.clone();
+                let nm = new.map(|m| uc::KG * m);
+                let res: Option<Option<anyhow::Result<()>>> = guard(|| match slot {
+                    Slot::Fc => l2.fuel_converter_mut().map(|c| c.set_mass(nm, se.clone())),
+                    Slot::Gen => l2.generator_mut().map(|c| c.set_mass(nm, se.clone())),
+                    Slot::Res => l2.reversible_energy_storage_mut().map(|c| c.set_mass(nm, se.clone())),
+                });
+                let post = view_loco(&l2);
+                let a = match &res { None => "panic".to_string(), Some(None) => "absent".into(), Some(Some(Err(_))) => "err".into(), Some(Some(Ok(()))) => format!("ok {}", tok_loco(&post)) };
+                if emit && !new.map_or(false, odd) { ctx.op(P, "loco_comp_set_mass", &format!("{} {} {} {}", pre_tok, slot.name(), of(new), mse_tok(se)), &a); }
+                if let Some(Some(Ok(()))) = res {
+                    st.history.push(json!({"call": format!("{}_mut().set_mass", slot.name()), "args": format!("{:?}", op), "result": "ok"}));
+                    ctx.count("mass.loco.nested_comp_update");
+                    if inv_mass_fields(&pre) && loco_derived_o(&pre).is_some() && !(inv_mass_fields(&post) && loco_derived_o(&post).is_some()) {
+                        // observation, not a clause: a component updated through `*_mut()` cannot keep its parent consistent
+                        ctx.count("mass.loco.nested_comp_update_breaks_parent");
+                    }
+                    st.mass_owed = false;
+                    l = l2;
+                }
+            }
+            LOp::GetMass => { let res = guard(|| l.mass()); if emit { ctx.op(P, "loco_mass", &pre_tok, &res_tok(&res, om)); } }
+            LOp::GetMu => { let res = guard(|| l.mu()); if emit { ctx.op(P, "loco_mu", &pre_tok, &res_tok(&res, |x| opt(x, |v| f(v.value)))); } }
+            LOp::GetForce => { let res = guard(|| l.force_max()); if emit { ctx.op(P, "loco_force_max", &pre_tok, &res_tok(&res, |x| f(x.value))); } }
+            LOp::GetDerivedTrait => {
+                let res = guard(|| Mass::derived_mass(&l));
+                if emit { ctx.op(P, "loco_derived_mass_trait", &pre_tok, &res_tok(&res, om)); }
+                // observation: the trait's derived_mass of a Locomotive is the powertrain's first component only
+                if let (Some(Ok(Some(d))), Some(Some(want))) = (&res, loco_derived_o(&pre)) {
+                    ctx.count(if close_loose(d.value, want) { "mass.loco.trait_derived.agrees" } else { "mass.loco.trait_derived.differs_from_inherent" });
+                }
+            }
+            LOp::Expunge => {
+                let mut l2 = l.clone();
+                l2.expunge_mass_fields();
+                let post = view_loco(&l2);
+                if emit { ctx.op(P, "loco_expunge", &pre_tok, &format!("ok {}", tok_loco(&post))); }
+                st.history.push(json!({"call": "expunge_mass_fields"}));
+                st.mass_owed = false;
+                l = l2;
+            }
+            LOp::Load => { load_loco(ctx, &l, &pre, emit); }
+        }
+    }
+}
+
+/// `from_yaml` of the YAML text of `l` (whatever redundant data it holds): accepted only if consistent
+fn load_loco(ctx: &mut Ctx, l: &Locomotive, v: &LocoV, emit: bool) {
+    let y = l.to_yaml().unwrap();
+    let res = guard(|| Locomotive::from_yaml(&y));
+    let a = match &res { None => "panic", Some(Err(_)) => "err", Some(Ok(_)) => "ok" };
+    if emit && loco_fin(v) { ctx.op(P, "loco_load", &tok_loco(v), a); }
+    ctx.count(&format!("mass.loco.load.{}", a));
+    ctx.checked(P, "load_accepts_only_consistent");
+    let consistent = inv_mass_fields(v) && loco_derived_o(v).is_some() && inv_force_fields(v) && v.comps.iter().all(comp_inv);
+    ctx.count(&format!("mass.loco.load.fields_{}", if consistent { "consistent" } else { "inconsistent" }));
+    match res {
+        None => ctx.fail(P, "no_panic", "load", "Locomotive::from_yaml panicked".into(), json!({"yaml": y})),
+        Some(Ok(loaded)) => {
+            if !consistent {
+                ctx.fail(P, "load_accepts_only_consistent", "load",
+                    format!("Locomotive::from_yaml accepted redundant data that disagree: mass {:?} derived {:?} mu {:?} force_max {} (mu*m*g = {:?})",
+                        v.mass, loco_derived_o(v), v.mu, v.force, v.mu.zip(v.mass).map(|(a, b)| a * b * g())),
+                    json!({"kind": "locomotive_load", "fields": loco_json(v), "yaml": y}));
+            }
+            ctx.checked(P, "load_round_trip");
+            if loaded != *l && loco_fin(v) {
+                ctx.fail(P, "load_round_trip", "load", "loaded locomotive differs from the saved one".into(), json!({"yaml": y}));
+            }
+        }
+        Some(Err(_)) => {
+            let tight = match (v.mu, v.mass) { (Some(mu), Some(m)) => close_tight(v.force, mu * m * g()) || v.force == mu * m * g(), _ => true }
+                && match (v.mass, loco_derived_o(v)) { (Some(m), Some(Some(d))) => close_tight(m, d) || m == d, (_, Some(_)) => true, _ => false }
+                && v.comps.iter().all(|c| match (c.mass, comp_derived_o(c)) { (Some(m), Some(d)) => close_tight(m, d) || m == d, _ => true });
+            if tight && loco_fin(v) {
+                ctx.fail(P, "load_accepts_only_consistent", "load", "Locomotive::from_yaml rejected consistent data".into(),
+                    json!({"kind": "locomotive_load", "fields": loco_json(v), "yaml": y}));
+            }
+        }
+    }
 }
